@@ -308,6 +308,8 @@ def gen_cut_string(R, tier, min_frags=1, with_levels=0, classes=None, weights=Fa
     feats.add('frags:%s' % (nfr if nfr < 4 else '4+'))
     case = dict(input=s, last_all_atom=True, legacy=True, kind='cut', dedicated=True, model=m.to_json(),
                 nfr=nfr, nlevels=1, two_level=s)
+    if not shared_atoms:
+        case['written_descriptors'] = info['written']
     if annot:
         feats.add('annotated_atoms')
         exp = []
